@@ -90,10 +90,11 @@ def generate(rng):
         cfg = sample_kauri_config(rng)
         kmin = 2
     else:
-        cfg = sample_config(rng, n_range=(2, 12), k_range=(1, 4), max_iter_range=(1, 3))
+        cfg = sample_config(rng, n_range=(2, 12), k_range=(1, 4), max_iter_range=(1, 3), p_big=0.1)
         kmin = max(2, cfg["params"]["n_clusters"])
     fam = cfg["family"]
-    cfg["pool_n"] = [cfg["n"], rng.randint(kmin, 13), rng.randint(kmin, 13)]
+    hi = 13 if not cfg.get("big") else 36
+    cfg["pool_n"] = [cfg["n"], rng.randint(kmin, max(kmin, hi)), rng.randint(kmin, max(kmin, hi))]
     cfg["layouts"] = [weighted(rng, [("C", 5), ("F", 1.5), ("strided", 1.5), ("readonly", 1.5), ("int", 1)]) for _ in range(3)]
     is_kauri = fam == "Kauri"
     info = FAMILIES.get(fam, {})
@@ -115,7 +116,7 @@ def generate(rng):
         kinds += [("path", 2.5), ("crash_path", 1)]
     ops = []
     last_ds = None
-    for _ in range(rng.randint(1, 8)):
+    for _ in range(rng.randint(1, 8) if rng.random() < 0.9 else rng.randint(8, 14)):
         k = weighted(rng, kinds)
         op = {"op": k}
         if k in ("fit", "fit_predict", "path", "crash_fit", "crash_path", "badparam_fit", "malformed_fit", "other_fit"):
